@@ -14,7 +14,8 @@ import (
 )
 
 // numLit is a literal split by the grammar
-//   number = [ "-" ] int [ "." 1*DIGIT ] [ ("e"/"E") [ "+"/"-" ] 1*DIGIT ]      int = "0" / ( %x31-39 *DIGIT )
+//
+//	number = [ "-" ] int [ "." 1*DIGIT ] [ ("e"/"E") [ "+"/"-" ] 1*DIGIT ]      int = "0" / ( %x31-39 *DIGIT )
 type numLit struct {
 	Neg       bool
 	Int, Frac string
